@@ -45,6 +45,28 @@ def gil_owned(block):
     return False
 
 
+def crosscheck(n, mode, seed, quiet=False):
+    """returns (plans, library_reports, findings{(kind, site): count}) or None if the plain build failed"""
+    ok, _, text = simlib.build(['ioplain'])
+    if not ok:
+        return None
+    per = max(1, n // simlib.CORES)
+    total, findings, third = 0, {}, 0
+    with concurrent.futures.ThreadPoolExecutor(max_workers=simlib.CORES) as ex:
+        futs = [ex.submit(run_chunk, a, min(a + per, n), mode, seed) for a in range(0, n, per)]
+        for f in futs:
+            cnt, reps = f.result()
+            total += cnt
+            for blk in reps:
+                if gil_owned(blk):
+                    site = next((re.sub(r'==\d+==\s+(at|by) 0x[0-9A-F]+: ', '', l)[:160] for l in blk[1:] if 'gil' in l), blk[1][:160])
+                    k = (blk[0].split('== ')[1][:60], site)
+                    findings[k] = findings.get(k, 0) + 1
+                else:
+                    third += 1
+    return total, third, findings
+
+
 def main():
     n = int(sys.argv[1]) if len(sys.argv) > 1 and sys.argv[1].isdigit() else 320
     mode = sys.argv[sys.argv.index('--mode') + 1] if '--mode' in sys.argv else 'c11'
